@@ -88,6 +88,24 @@ pub enum Sel {
     YStep2,
     /// `Su[2]`: second Sunday of the month = 2024-06-09
     Su2,
+    /// `Sa-Tu`: wrapping weekday range
+    SaTu,
+    /// `Nov-Feb`: wrapping month range
+    NovFeb,
+    /// `Jun We`: month and weekday
+    JunWe,
+    /// `2024 We`: year and weekday
+    Y2024We,
+    /// `Jun-Aug`
+    JunAug,
+    /// `week 20-30`
+    Week20To30,
+    /// `Mo-Fr`
+    MoFr,
+    /// `Fr-Th`: wrapping range covering the whole week
+    FrTh,
+    /// `Jul`, written `Jul:` in the defect named by C07
+    JulFrTh,
 }
 
 impl Sel {
@@ -127,6 +145,24 @@ impl Sel {
             Sel::Y2024Jun => ds.monthday.push(MonthdayRange::Month { range: Month::June..=Month::June, year: Some(2024) }),
             Sel::Y2025 => ds.year.push(YearRange { range: Year(2025)..=Year(2025), step: 1 }),
             Sel::YStep2 => ds.year.push(YearRange { range: Year(2024)..=Year(2030), step: 2 }),
+            Sel::SaTu => ds.weekday.push(wd(Weekday::Sat, Weekday::Tue)),
+            Sel::NovFeb => ds.monthday.push(MonthdayRange::Month { range: Month::November..=Month::February, year: None }),
+            Sel::JunWe => {
+                ds.monthday.push(MonthdayRange::Month { range: Month::June..=Month::June, year: None });
+                ds.weekday.push(wd(Weekday::Wed, Weekday::Wed));
+            }
+            Sel::Y2024We => {
+                ds.year.push(YearRange { range: Year(2024)..=Year(2024), step: 1 });
+                ds.weekday.push(wd(Weekday::Wed, Weekday::Wed));
+            }
+            Sel::JunAug => ds.monthday.push(MonthdayRange::Month { range: Month::June..=Month::August, year: None }),
+            Sel::Week20To30 => ds.week.push(WeekRange { range: WeekNum(20)..=WeekNum(30), step: 1 }),
+            Sel::MoFr => ds.weekday.push(wd(Weekday::Mon, Weekday::Fri)),
+            Sel::FrTh => ds.weekday.push(wd(Weekday::Fri, Weekday::Thu)),
+            Sel::JulFrTh => {
+                ds.monthday.push(MonthdayRange::Month { range: Month::July..=Month::July, year: None });
+                ds.weekday.push(wd(Weekday::Fri, Weekday::Thu));
+            }
             Sel::Su2 => ds.weekday.push(WeekDayRange::Fixed {
                 range: Weekday::Sun..=Weekday::Sun,
                 offset: 0,
@@ -151,6 +187,11 @@ impl Sel {
             Sel::Ph => offset == 0 || offset == 1,
             Sel::Jul | Sel::Y2025 => false,
             Sel::Su2 => offset == -3,
+            Sel::SaTu => offset <= -1 || offset == 3,
+            Sel::NovFeb | Sel::JulFrTh => false,
+            Sel::JunWe | Sel::Y2024We => offset == 0,
+            Sel::JunAug | Sel::Week20To30 | Sel::FrTh => true,
+            Sel::MoFr => (-2..=2).contains(&offset),
             Sel::TuWe => offset == -1 || offset == 0,
             Sel::Tu => offset == -1,
             Sel::We => offset == 0,
@@ -394,10 +435,10 @@ pub fn rule_ranges(model: &RuleModel, today: bool, yesterday: bool) -> Option<Ve
 
 #[derive(Clone, Copy, PartialEq, Eq, Debug)]
 pub enum Reading {
-    /// a spill-over of a normal rule that does not match the evaluated day shows only when no
-    /// earlier rule produced a schedule for that day; fallback looks at matching rules only
+    /// a fallback rule looks at the rules applying on the evaluated day only: a spill-over from the
+    /// day before does not count as coverage
     Strict,
-    /// the spill-over always continues on the following day and counts as coverage for fallback
+    /// a spill-over from the day before counts as coverage for the fallback decision
     SpillFriendly,
 }
 
@@ -416,11 +457,9 @@ pub fn day_semantics(models: &[RuleModel], today: &[bool], yesterday: &[bool], r
                     st.matched = SymBool::TRUE;
                     st.some = SymBool::TRUE;
                 } else if let Some(ranges) = eval {
-                    let guard = match reading {
-                        Reading::Strict => st.some.not(),
-                        Reading::SpillFriendly => SymBool::TRUE,
-                    };
-                    st.layers.push(mk(guard, ranges));
+                    // the rule does not apply today: previous rules stay, its span from the day before
+                    // still continues past midnight (on top of them)
+                    st.layers.push(mk(SymBool::TRUE, ranges));
                     st.some = SymBool::TRUE;
                 }
             }
